@@ -13,7 +13,7 @@ PID, COMP = "C15", "AntiAmp"
 DISCIPLINE = {"RereadPerSegment": "FALSE", "PadBeyondCredit": "FALSE", "WrapOnOverdraft": "FALSE"}
 AS_CODED = {"RereadPerSegment": "TRUE", "PadBeyondCredit": "TRUE", "WrapOnOverdraft": "FALSE"}   # on_sent saturates since 456e429
 BASE = {"N": 3}
-MC_INVS = ("TypeOK", "Amp3x", "CreditNeverWraps", "ResumeOnRcvdOrGrant")
+MC_INVS = ("TypeOK", "Amp3x", "CreditNeverWraps", "ResumeOnRcvdOrGrant", "WakeAfterChange")
 MC_CFG = common.mc_cfg(invs=MC_INVS, props=("DeadIsFinal",))
 MC_LIVE_CFG = "SPECIFICATION MCSpec\nVIEW View\nPROPERTY Resumes\nCHECK_DEADLOCK FALSE\n"
 # call-granularity traces: exact replay + the property invariants; the wrap is reported softly (the model follows the code)
